@@ -14,6 +14,9 @@ import (
 	"time"
 
 	"github.com/magefile/mage/mg"
+
+	"verif.test/depsrun/tasks"
+	v2 "verif.test/depsrun/tasks.V2"
 )
 
 type contendSpec struct {
@@ -66,9 +69,18 @@ func contend(spec contendSpec) {
 	// runtime.FuncForPC names both "main.genericDep[...]")
 	mg.Deps(genericDep[int], genericDep[string])
 	json.NewEncoder(os.Stdout).Encode(map[string]interface{}{"keys": len(contendCount), "not_once": bad,
-		"generic_runs": []int32{atomic.LoadInt32(&genericRuns[0]), atomic.LoadInt32(&genericRuns[1])},
+		"generic_runs":   []int32{atomic.LoadInt32(&genericRuns[0]), atomic.LoadInt32(&genericRuns[1])},
 		"invalid_member": invalidProbe(), "name_prefix": namesProbe(), "custom_fn": customProbe(), "verbose_late": verboseProbe(),
-		"wide": wideProbe(), "ctx_err": ctxErrProbe()})
+		"wide": wideProbe(), "ctx_err": ctxErrProbe(), "escaped_names": escapedProbe()})
+}
+
+// ---- a function of package ".../tasks.V2" and the method of type V2 in package ".../tasks" have
+// names that differ only by the runtime's escaping of the dot: different functions, different
+// dependencies (C01, C14).
+func escapedProbe() []int32 {
+	mg.Deps(tasks.V2.Build, v2.Build)
+	mg.SerialDeps(mg.F(v2.Deploy, "prod"), mg.F(tasks.V2.Deploy, "prod"))
+	return []int32{atomic.LoadInt32(&tasks.Runs[0]), atomic.LoadInt32(&v2.Runs[0]), atomic.LoadInt32(&tasks.Runs[1]), atomic.LoadInt32(&v2.Runs[1])}
 }
 
 // ---- wide calls: one call naming n dependencies, for n around and beyond typical batch sizes;
@@ -80,6 +92,16 @@ func wideBody(round, i int) {
 		time.Sleep(time.Millisecond)
 	}
 	atomic.AddInt32(&wideDone[round], 1)
+}
+
+var wideFailDone int32
+
+func wideFailBody(n, i int) error {
+	atomic.AddInt32(&wideFailDone, 1)
+	if i == 3 {
+		return fmt.Errorf("check %d of %d failed", i, n)
+	}
+	return nil
 }
 
 func wideProbe() []string {
@@ -109,6 +131,30 @@ func wideProbe() []string {
 			}
 		}
 	}
+	// a failing member early in a wide PARALLEL call does not excuse the others: every named dependency runs
+	// (once), the call then panics; a serial call stops at the failure (checked by the engine programs)
+	for _, n := range []int{65, 100, 200} {
+		wideFailDone = 0
+		fns := make([]interface{}, n)
+		for i := range fns {
+			fns[i] = mg.F(wideFailBody, n, i)
+		}
+		for style := 0; style < 2; style++ {
+			panicked := false
+			func() {
+				defer func() { panicked = recover() != nil }()
+				if style == 0 {
+					mg.Deps(fns...)
+				} else {
+					mg.CtxDeps(context.Background(), fns...) // same dependencies again: nothing runs twice, the failure is remembered
+				}
+			}()
+			if got := atomic.LoadInt32(&wideFailDone); int(got) != n || !panicked {
+				bad = append(bad, fmt.Sprintf("parallel call #%d over %d dependencies of which #3 fails: %d bodies had run when it ended (panicked: %v); all %d must run, once, and the call must panic",
+					style+1, n, got, panicked, n))
+			}
+		}
+	}
 	time.Sleep(20 * time.Millisecond)
 	for r, c := range wideDone {
 		if n := sizes[r/4]; int(c) != n {
@@ -127,11 +173,11 @@ var (
 )
 
 func ceCancelsAndFails(ctx context.Context) error { ceCancel(); <-ctx.Done(); return ctx.Err() }
-func ceWaitsAndFails(ctx context.Context) error    { <-ctx.Done(); return ctx.Err() }
-func ceNext0()                                     { atomic.AddInt32(&ceStarted[0], 1) }
-func ceNext1()                                     { atomic.AddInt32(&ceStarted[1], 1) }
-func ceNext2()                                     { atomic.AddInt32(&ceStarted[2], 1) }
-func ceNext3()                                     { atomic.AddInt32(&ceStarted[3], 1) }
+func ceWaitsAndFails(ctx context.Context) error   { <-ctx.Done(); return ctx.Err() }
+func ceNext0()                                    { atomic.AddInt32(&ceStarted[0], 1) }
+func ceNext1()                                    { atomic.AddInt32(&ceStarted[1], 1) }
+func ceNext2()                                    { atomic.AddInt32(&ceStarted[2], 1) }
+func ceNext3()                                    { atomic.AddInt32(&ceStarted[3], 1) }
 
 func ctxErrProbe() []string {
 	bad := []string{}
@@ -225,7 +271,7 @@ func VpLate()  {}
 
 func verboseProbe() string {
 	os.Unsetenv("MAGEFILE_VERBOSE")
-	mg.Deps(VpEarly) // what an init() of a magefile may do
+	mg.Deps(VpEarly)                   // what an init() of a magefile may do
 	os.Setenv("MAGEFILE_VERBOSE", "1") // what the generated main does for -v
 	fmt.Fprintln(os.Stderr, "VPROBE-BEGIN")
 	mg.Deps(VpLate, VpEarly)
@@ -286,7 +332,7 @@ func invalidProbe() map[string]interface{} {
 var nmCount [4]int32
 var nmBad int32
 
-func NmBuild()    { atomic.AddInt32(&nmCount[0], 1) }
+func NmBuild() { atomic.AddInt32(&nmCount[0], 1) }
 func NmBuildAll() {
 	mg.Deps(NmBuild)
 	if atomic.LoadInt32(&nmCount[0]) != 1 {
